@@ -137,4 +137,4 @@ for c in req["cases"]:
         r = {"error": type(e).__name__ + ": " + str(e)[:300]}
     r["id"] = c["id"]
     results.append(r)
-print(json.dumps({"mode": mode, "results": results}))
+print(json.dumps({"mode": mode, "results": results}, default=__import__("_util").jdefault))
